@@ -64,6 +64,46 @@ def r1_pairing(ctx):
               bad="there is no finally block: an exception in the body skips close()", fn=qn)
 
 
+def _regex_tokeniser(ctx, qn, it):
+    """the constant pattern when `it` is PATTERN.findall(record) / re.findall(pattern, record) - directly or inside a package helper the
+    rules cannot name (looked at through its own return value); else None"""
+    import ast
+    mod = ctx.pkg.functions[qn].module
+
+    def const_pattern(node):
+        if isinstance(node, ast.Constant) and isinstance(node.value, str):
+            return node.value
+        if isinstance(node, ast.Name):
+            for st in mod.tree.body:
+                if isinstance(st, ast.Assign) and any(isinstance(t, ast.Name) and t.id == node.id for t in st.targets):
+                    v = st.value
+                    if isinstance(v, ast.Call) and ast.unparse(v.func) in ("re.compile", "compile") and v.args:
+                        return const_pattern(v.args[0])
+                    return const_pattern(v)
+        return None
+
+    def from_function(fnode):
+        for n in ast.walk(fnode):
+            if isinstance(n, ast.Call) and isinstance(n.func, ast.Attribute) and n.func.attr in ("findall", "finditer"):
+                if ast.unparse(n.func.value) == "re" and n.args:
+                    return const_pattern(n.args[0])
+                return const_pattern(n.func.value)
+        return None
+    for x in walk(it):
+        if isinstance(x, tuple) and x and x[0] == "call" and x[1][0] == "attr" and x[1][2] in ("findall", "finditer") and x[1][1][0] == "glob":
+            return const_pattern(ast.Name(id=x[1][1][1].rsplit(".", 1)[-1]))
+        if isinstance(x, tuple) and x and x[0] == "call" and x[1][0] == "glob" and x[1][1].rsplit(".", 1)[-1] in ("findall", "finditer") and x[1][1].startswith(ctx.pkg.name + "."):
+            return const_pattern(ast.Name(id=x[1][1].rsplit(".", 2)[-2]))
+        if isinstance(x, tuple) and x and x[0] == "call" and x[1] in (("glob", "re.findall"), ("glob", "re.finditer")) and x[2] and is_const(x[2][0]) and isinstance(x[2][0][1], str):
+            return x[2][0][1]
+    if it[0] == "call":
+        cq = callee(it)
+        f2 = ctx.pkg.functions.get(cq) if isinstance(cq, str) else None
+        if f2 is not None:
+            return from_function(f2.node)
+    return from_function(ctx.pkg.functions[qn].node)
+
+
 def r2_header(ctx):
     qn = HD
     for p in ctx.paths(qn):
@@ -95,6 +135,37 @@ def r2_header(ctx):
             detail = "region elements come from (line, position) %s, documented %s" % ([(g[0] + 1 if g[0] is not None else None, g[1]) for g in got], [(w[0] + 1, w[1]) for w in want])
         ctx.check("R2", qn + "|region-assembly", ok, "region = (west, east, south, north): W/E from line 4, S/N from line 3", bad=detail, fn=qn)
         ctx.check("R2", qn + "|range-is-line-5", True if ords(rng) == [4] else (False if ords(rng) else None), "the data range is the fifth line", bad="the data range comes from line(s) %s" % [o + 1 for o in ords(rng)], fn=qn)
+        # tokenisation of the numeric header records: each record is cut at white space (str.split()) and every token converted; a tokeniser
+        # built on a regular expression is folded (the pattern is a constant of the source) against the spellings of a number that float()
+        # and numpy accept - a legal spelling the pattern cannot match as ONE token is a positive contradiction
+        toks = []
+        for part in (shape, region, rng):
+            for x in walk(part):
+                if isinstance(x, tuple) and x and x[0] == "comp":
+                    toks.append(x[3])
+        verdict, why = (True if toks else None), ""
+        for it in toks:
+            it_u = Q.unwrap(it)
+            if it_u[0] == "call" and it_u[1][0] == "attr" and it_u[1][2] == "split" and not it_u[2] and not it_u[3]:
+                continue
+            pat = _regex_tokeniser(ctx, qn, it_u)
+            if pat is None:
+                verdict = None if verdict else verdict
+                why = "tokeniser %s" % show(it_u)[:60]
+                continue
+            import re as _re
+            try:
+                rx = _re.compile(pat)
+            except _re.error:
+                verdict = None if verdict else verdict
+                continue
+            miss = [w for w in (".5", "-.25", "5.", "1e3", "1.5E+03", "+2.5", "-7", "0.125") if rx.findall(w) != [w] and ["".join(g) for g in rx.findall(w) if isinstance(g, tuple)] != [w]]
+            if miss:
+                verdict, why = False, "the header numbers are extracted with the pattern %r, which does not match the legal spelling(s) %s as one number: such a header is read with other values" % (pat, ", ".join(miss))
+                break
+            verdict = None if verdict else verdict
+            why = "regular-expression tokeniser %r accepts the witness spellings; not proved for all" % pat
+        ctx.check("R2", qn + "|records-cut-at-white-space", verdict, "every numeric header record is cut at white space and each token converted", bad=why, undecided=why or None, fn=qn)
         n_lines = len([e for e in p.events if e.kind == "call" and callee(e.data[0]) == ".readline"])
         ctx.check("R2", qn + "|five-header-lines", True if n_lines == 5 else False, "exactly five header lines are consumed", bad="%d header lines are consumed: the body starts at the wrong line" % n_lines, fn=qn)
 
